@@ -4,6 +4,7 @@ The code under test runs unmodified on proxy objects (SymInt / SymBool).  Every 
 becomes a solver query (Engine.branch); the search re-executes the harness body once per feasible path,
 replaying the decisions recorded in the trail (DART / CrossHair style).  See /verif/DESIGN.md section 3.1.
 """
+import os
 import time
 import z3
 
@@ -431,6 +432,13 @@ class Engine:
         t = time.time()
         r = self.solver.check(*extra)
         dt = time.time() - t
+        if dt > 5 and os.environ.get('SYMEX_DUMP_SLOW') and not getattr(self, '_dumped', 0) > 3:
+            self._dumped = getattr(self, '_dumped', 0) + 1
+            with open('%s.%d.smt2' % (os.environ['SYMEX_DUMP_SLOW'], self._dumped), 'w') as f:
+                f.write(self.solver.to_smt2().replace('(check-sat)', ''))
+                for x in extra:
+                    f.write('(assert %s)\n' % x.sexpr())
+                f.write('(check-sat)\n; took %.1fs result %s\n' % (dt, r))
         self.stats['queries'] += 1
         self.stats['solver_s'] += dt
         if r == z3.sat:
@@ -482,12 +490,19 @@ class Engine:
         if cid in self.known:
             self.stats['cache_hits'] += 1
             return self.known[cid]
-        h = cond.hash()
+        h = cond        # the AST itself: keeping it alive keeps hash-consing (and z3's argument ordering) stable across replays
         if self.pos < len(self.trail):
             ent = self.trail[self.pos]
             choice = ent[0]
-            if ent[3] != h:
-                raise HarnessError('replay divergence at decision %d' % self.pos)
+            if not ent[3].eq(cond):
+                # structurally different: accept only if provably equivalent (z3 may order arguments differently)
+                s = z3.Solver()
+                s.set('timeout', 5000)
+                s.add(ent[3] != cond)
+                if s.check() != z3.unsat:
+                    raise HarnessError('replay divergence at decision %d: %s  vs  %s' % (self.pos, str(ent[3])[:200], str(cond)[:200]))
+                cond = ent[3]
+                cid = cond.get_id()
         else:
             if self.pos >= self.max_branches:
                 raise PathLimit()
